@@ -304,8 +304,8 @@ def shards(tier, seed):
     out = []
     if tier == "quick":
         for gi, grp in enumerate(GROUPS):
-            out.append(dict(name=f"gen{gi:02d}-pre{'-'.join(map(str, grp))}", fn="h_gen", engine="direct", budget=240, query_timeout=60,
-                            kwargs=dict(pre=grp, k=2, rows=_rows(3, seed=gi))))
+            out.append(dict(name=f"gen{gi:02d}-pre{'-'.join(map(str, grp))}", fn="h_gen", engine="direct", budget=600, query_timeout=60,
+                            kwargs=dict(pre=grp, k=2, rows=_rows(2, seed=gi))))
         out.append(dict(name="variants", fn="h_gen", engine="direct", budget=120,
                         kwargs=dict(pre=[1, 4], k=2, effs=[0, 3], rows=[dict(r, variant=v) for v in (2, 3) for r in _rows(2, seed=v)])))
         out.append(dict(name="files", fn="h_file", engine="direct", budget=300, query_timeout=120, kwargs=dict(k=2)))
